@@ -898,7 +898,7 @@ def judge_cases(run: Run, W: World, cases, label='judgement'):
         # ... and an atomic type against a value with arrays and no other function item: the arrays are atomized
         # (convert_argument, model `convertArg`); there the specification of MATCHING is not the oracle
         atomize_op = ty[0] == 'L' and ty[1][0] in ('a', 'num') and re.search(r'(?<![\w])r ', ' ' + vt) is not None \
-            and re.search(r'(?<![\w])[fm] ', ' ' + vt) is None
+            and re.search(r'(?<![\w])[fmn] ', ' ' + vt) is None
         param_op = param_op or atomize_op
         ip = impl_param(W, pv, text, x, c) if param_op else None
         if atomize_op:
@@ -1946,6 +1946,178 @@ def function_of_type(W: World, ty, attempt=0):
 
 
 # =============================================================================== corpus
+# =============================================================================== function conversion rules (§3.1.5.2)
+CONV_TYPES = ['xs:double', 'xs:float', 'xs:decimal', 'xs:integer', 'xs:string', 'xs:anyURI', 'xs:untypedAtomic',
+              'xs:anyAtomicType', 'xs:boolean', 'xs:QName', 'xs:date', 'xs:int', 'xs:token', 'xs:duration',
+              'xs:hexBinary', 'xs:normalizedString', 'xs:nonNegativeInteger']
+CONV_NUM = ['xs:double', 'xs:float', 'xs:decimal', 'xs:integer', 'xs:anyAtomicType', 'xs:nonNegativeInteger']
+CONV_STR = ['xs:string', 'xs:anyURI', 'xs:untypedAtomic', 'xs:anyAtomicType', 'xs:normalizedString', 'xs:token']
+
+
+def conv_show(W: World, r) -> str:
+    """the value bound to the parameter, as the driver prints it: V:<item>,… with a<class> / n / f / m / r"""
+    from elementpath.xpath_tokens import XPathFunction, XPathMap, XPathArray
+    from elementpath.xpath_nodes import XPathNode
+    out = []
+    for x in (r if isinstance(r, list) else [r]):
+        if isinstance(x, XPathArray):
+            out.append('r')
+        elif isinstance(x, XPathMap):
+            out.append('m')
+        elif isinstance(x, XPathFunction):
+            out.append('f')
+        elif isinstance(x, XPathNode):
+            out.append('n')
+        elif type(x) in W.L.val_cls:
+            out.append(f'a{W.L.val_cls.index(type(x))}')
+        else:
+            out.append('?' + type(x).__name__)
+    return 'V:' + ','.join(out)
+
+
+def impl_convert(W: World, pyval, st_text, xsd11) -> str:
+    """`function($g as T) { $g }($v)`: the converted value (classes), F = type error (XPTY0004 / FOTY0013 / XPTY0117 /
+    FORG0001: the specification's "type error or failing cast"; the model has one code)"""
+    v = pyval[0] if len(pyval) == 1 else list(pyval)
+    try:
+        tk = W.parser(xsd11).parse(f'function($g as {st_text}) {{ $g }}($v)')
+        r = tk.evaluate(W.XPathContext(W.root1, variables={'v': v}))
+        return conv_show(W, r)
+    except Exception as e:
+        t = err_text(e)
+        return 'F' if t in ('E:XPTY0004', 'E:FOTY0013', 'E:XPTY0117', 'E:FORG0001') else t
+
+
+def conv_value(W: World, rng, samples, nodes, depth=0):
+    """(python items, tokens) of 0..3 items: sample atoms of every class, arrays (nested) of them, sometimes a node,
+    a map or a function item"""
+    items, toks = [], []
+    for _ in range(rng.choice([0, 1, 1, 1, 2, 2, 3])):
+        r = rng.random()
+        if r < 0.62 or depth >= 2:
+            v, t = rng.choice(samples)
+        elif r < 0.84:
+            from elementpath.xpath_tokens import XPathArray
+            mem = [conv_value(W, rng, samples, nodes, depth + 1) for _ in range(rng.choice([0, 1, 2, 2, 3]))]
+            v = XPathArray(W.P, [m[0][0] if len(m[0]) == 1 else list(m[0]) for m in mem])
+            t = f'r {len(mem)} ' + ' '.join(f'{len(m[0])} ' + ' '.join(m[1]) for m in mem)
+            t = ' '.join(t.split())
+        elif r < 0.94:
+            v, t = rng.choice(nodes)
+        elif r < 0.97 and W.funcs:
+            f = rng.choice(W.funcs)
+            v, t = f[0], f[1]
+        else:
+            from elementpath.xpath_tokens import XPathMap
+            v, t = XPathMap(W.P, []), 'm 0'
+        items.append(v)
+        toks.append(t)
+    return items, toks
+
+
+def untyped_cast_row(run: Run, W: World):
+    """rule 2 of §3.1.5.2 against ANOTHER code path: the sample `xs:untypedAtomic("5")` is converted for a parameter
+    declared T exactly when `xs:untypedAtomic("5") castable as T` (the constructor functions); otherwise a dropped cast
+    would read as "the cast failed" in the class abstraction"""
+    st = run.stats
+    for expr, want in (('function($g as xs:QName) { $g }(xs:untypedAtomic("a"))', 'E:XPTY0117'),
+                       ('function($g as xs:QName*) { $g }((xs:QName("a"), xs:untypedAtomic("a")))', 'E:XPTY0117'),
+                       ('function($g) as xs:QName { $g }(xs:untypedAtomic("a"))', 'E:XPTY0117'),
+                       ('function($g as xs:float) { $g }(1e0)', 'E:XPTY0004'),
+                       ('function($g) as xs:float { $g }(1e0)', 'E:XPTY0004'),
+                       ('function($g as xs:token) { $g }(xs:anyURI("u"))', 'E:XPTY0004'),
+                       ('function($g as xs:string) { $g }(xs:anyURI("u"))', "'u'"),
+                       ('function($g as xs:string) { $g }(/*/@*[1])', None)):
+        got = impl_eval(W, expr)
+        st.count('conv:fixed-regressions')
+        if want is not None and got != want or want is None and got.startswith('E:'):
+            run.disagree(Disagreement({'op': 'function conversion (regression of F18y / F18z)', 'expr': expr}, got, None, want,
+                                      what='function-conversion-regression',
+                                      site='_InlineFunction.convert_argument / XPathToken.cast_to_primitive_type'))
+    for n in W.L.atom_names:
+        if n[3:] in ('anyAtomicType', 'NOTATION', 'dateTimeStamp', 'error', 'untypedAtomic', 'QName'):
+            continue
+        castable = impl_eval(W, f'xs:untypedAtomic("5") castable as {n}')
+        conv = impl_eval(W, f'function($g as {n}) as xs:boolean {{ $g instance of {n} }}(xs:untypedAtomic("5"))')
+        st.count('conv:untyped-castable-' + castable[:5])
+        want = {'True': 'True', 'False': 'E:XPTY0004'}.get(castable, castable)
+        if conv != want and not (castable == 'False' and conv == 'E:FORG0001'):
+            run.disagree(Disagreement({'op': 'function conversion of xs:untypedAtomic("5")', 'type': n,
+                                       'castable as': castable}, conv, None, want,
+                                      what='untyped-cast-vs-castable', site='XPathToken.cast_to_primitive_type'))
+
+
+def function_conversion(run: Run, W: World):
+    """model `convertParam` = real `function($g as T) {$g}($v)` = specification `specConvert`, on the converted VALUE"""
+    rng, st = run.rng, run.stats
+    L = W.L
+    samples, seen = [], set()
+    for v, t in W.atoms:                     # the cast table is the cast of the FIRST sample of each class
+        if t not in seen:
+            seen.add(t)
+            samples.append((v, t))
+    names = [n for n in CONV_TYPES if n in L.atom_names]
+    cases = []
+    fixed = [('xs:float', '1', ['float']), ('xs:double', '*', ['Float', 'int', 'Decimal']), ('xs:string', '1', ['AnyURI']),
+             ('xs:integer', '1', ['UntypedAtomic']), ('xs:QName', '1', ['UntypedAtomic']), ('xs:anyURI', '1', ['str']),
+             ('xs:untypedAtomic', '1', ['AnyURI']), ('xs:decimal', '1', ['float']), ('xs:float', '+', ['Decimal', 'float'])]
+    by_name = {L.val_names[int(t.split(' ')[1])]: (v, t) for v, t in samples}
+    for n, o, cl in fixed:
+        if n in L.atom_names and all(c in by_name for c in cl):
+            cases.append((n, o, [by_name[c][0] for c in cl], [by_name[c][1] for c in cl]))
+    # nodes whose typed value IS the class sample: xs:untypedAtomic("5") for the document, the element, the attribute and
+    # the text node (the cast of an untyped value depends on its text), an xs:string for comment / PI / namespace nodes
+    import lxml.etree as LET
+    croot = W.XPathContext(LET.ElementTree(LET.XML('<n1 n2="5"><!--c--><?n3 v?>5</n1>'))).root
+    nodes = [(nd, W.node_tok(nd, False)) for nd in
+             W.P.parse('(/ , //node(), //@*, //namespace::*)').evaluate(W.XPathContext(croot))]
+    st.count('conv:node-kinds:' + ''.join(sorted({t.split(' ')[1] for _, t in nodes})))
+    for nd, nt in nodes:
+        for n in ('xs:string', 'xs:untypedAtomic', 'xs:integer', 'xs:anyAtomicType', 'xs:double', 'xs:boolean', 'xs:QName'):
+            for o in ('1', '*'):
+                cases.append((n, o, [nd], [nt]))
+    for _ in range(run.scale(700, 12000)):
+        n = rng.choice(names) if rng.random() < 0.85 else rng.choice(L.atom_names)
+        if n[3:] in ('dateTimeStamp', 'error', 'NOTATION'):
+            continue            # xs:NOTATION is abstract: no constructor (NotImplementedError in cast_to_primitive_type)
+        pool = samples
+        if rng.random() < 0.6:      # a family of values with a chance to be converted: numbers / strings and URIs
+            num = rng.random() < 0.6
+            fam = ({'int', 'float', 'Decimal', 'Float', 'Integer', 'Int', 'Short', 'NonNegativeInteger', 'UntypedAtomic'}
+                   if num else {'str', 'AnyURI', 'UntypedAtomic', 'NormalizedString', 'XsdToken', 'NCName'})
+            pool = [sm for sm in samples if L.val_names[int(sm[1].split(' ')[1])] in fam] or samples
+            n = rng.choice([m for m in (CONV_NUM if num else CONV_STR) if m in L.atom_names])
+        items, toks = conv_value(W, rng, pool, nodes)
+        cases.append((n, rng.choice(['1', '?', '*', '*', '+']), items, toks))
+    lines = [f'C|1|L a {L.atom_names.index(n)} {o}|{len(toks)} ' + ' '.join(toks) for n, o, _, toks in cases]
+    lines = [' '.join(ln.split()) for ln in lines]
+    answers = run.driver('C18', lines)
+    for (n, o, items, toks), line, ans in zip(cases, lines, answers):
+        if ans.startswith('bad-'):
+            run.disagree(Disagreement(line, 'driver:' + ans, what='protocol'))
+            continue
+        a = fields(ans)
+        text = n + ('' if o == '1' else o)
+        impl = impl_convert(W, items, text, 1)
+        case = {'op': 'function conversion', 'expr': f'function($g as {text}) {{ $g }}($v)', 'type': text,
+                'value': line.split('|')[-1]}
+        st.case({'conv': text, 'v': case['value']}, nontrivial=True)
+        st.count('conv:' + ('accepted-unchanged' if impl.startswith('V:') and impl == 'V:' + ','.join(
+            'a' + t.split(' ')[1] if t.startswith('a ') else t[0] for t in toks) else
+            'accepted-converted' if impl.startswith('V:') else impl[:12]))
+        tags = []
+        if a['dv'] == '1':
+            st.count('conv:live-cast-table-deviates-on-input')
+        spec = None if a['spec'] == '-' else a['spec']
+        if a['lv'] != '1':
+            run.disagree(Disagreement(case, 'value class without sample', what='protocol'))
+        st.count('conv:inside-theorem-domain')
+        if impl != a['conv'] or (spec is not None and impl != spec):
+            run.disagree(Disagreement(case, impl, a['conv'], spec, what='function-conversion',
+                                      site='_xpath30_functions._InlineFunction.convert_argument / XPathToken.cast_to_primitive_type',
+                                      tags=tags))
+
+
 def corpus_types():
     L = live()
     ix = L.atom_names.index
@@ -2041,6 +2213,8 @@ def correspond(run: Run):
     error_propagation(run, W)
     own_occurrence_cases(run, W, G)
     map_constructor_key_types(run, W)
+    function_conversion(run, W)
+    untyped_cast_row(run, W)
     signatures(run, W)
     run.stats.rule = ('judgement = (sequence type AST rendered with random spacing, value of length 0..3 built from '
                       'atomic values of every value class with a sample, nodes of every kind from two documents, '
@@ -2345,6 +2519,11 @@ def cast_rows(numeric=False):
     return rows if not numeric else [r[0] for r in rows]
 
 
+def sampled_classes():
+    W = World(__import__('random').Random(0))
+    return sorted({int(t.split(' ')[1]) for _, t in W.atoms})
+
+
 def translate(run: Run) -> dict:
     L = live()
     from elementpath.xpath31 import XPath31Parser
@@ -2382,6 +2561,10 @@ def translate(run: Run) -> dict:
            f'  integer := {names.index("xs:integer")}',
            '  castRows := [' + ', '.join(lean_list(r) for r in cast_rows()) + ']',
            '  castNumRow := ' + lean_list(cast_rows(numeric=True)),
+           f'  strIdx := {L.val_cls.index(str)}',
+           '',
+           '/-- value classes that have a sample: the rows of castRows that were measured -/',
+           'def sampledCls : List Nat := ' + lean_list(sampled_classes()),
            '',
            '/-- the specification\'s view: an XSD 1.0 processor does not know the XSD 1.1-only types -/',
            'def specTables (xsd11 : Bool) : SpecTables where',
@@ -2416,7 +2599,7 @@ def body(run: Run) -> int:
                         'documents with at most one element child (hypothesis docsWellFormed of instance_of_eq_match_partial)',
                         'values are abstracted to their class: the cast of the function conversion rules is the cast of one sample per class',
                         'a typed function test with an occurrence indicator of its own has no AST: modelled at the top level of instance of / treat as only']
-    run.prove(['EPV.Props.C18', 'EPV.Props.C18Tables'], ['EPV.Spec.XPathTypes', 'EPV.Gen.C18Tables', 'EPV.Lemmas.SeqTypeSpec', 'EPV.Lemmas.SeqTypeHist', 'EPV.Lemmas.SeqTypeText', 'EPV.Lemmas.SeqTypeErr'])
+    run.prove(['EPV.Props.C18', 'EPV.Props.C18Tables', 'EPV.Props.C18Conv', 'EPV.Props.C18ConvTables'], ['EPV.Spec.XPathTypes', 'EPV.Spec.FuncConv', 'EPV.Lemmas.FuncConv', 'EPV.Gen.C18Tables', 'EPV.Lemmas.SeqTypeSpec', 'EPV.Lemmas.SeqTypeHist', 'EPV.Lemmas.SeqTypeText', 'EPV.Lemmas.SeqTypeErr'])
     try:
         correspond(run)
     except DriverError as e:
